@@ -160,6 +160,49 @@ theorem utf8Valid_ascii (s : List UInt8) (h : ∀ c ∈ s, c.toNat < 128) : utf8
     simp only [hb, ↓reduceIte]
     exact ih (fun c hc => h c (by simp [hc]))
 
+/-- the validator, unfolded one step -/
+theorem utf8Valid_cons (b0 : UInt8) (rest : List UInt8) :
+    utf8Valid (b0 :: rest) =
+      if b0 ≤ 0x7F then utf8Valid rest
+      else if 0xC2 ≤ b0 && b0 ≤ 0xDF then
+        match rest with
+        | b1 :: r => cont b1 && utf8Valid r
+        | _ => false
+      else if 0xE0 ≤ b0 && b0 ≤ 0xEF then
+        match rest with
+        | b1 :: b2 :: r => second3 b0 b1 && cont b2 && utf8Valid r
+        | _ => false
+      else if 0xF0 ≤ b0 && b0 ≤ 0xF4 then
+        match rest with
+        | b1 :: b2 :: b3 :: r => second4 b0 b1 && cont b2 && cont b3 && utf8Valid r
+        | _ => false
+      else false := by
+  conv => lhs; unfold utf8Valid
+  rfl
+
+theorem utf8Valid_append (a b : List UInt8) (h : utf8Valid a = true) :
+    utf8Valid (a ++ b) = utf8Valid b := by
+  fun_induction utf8Valid a with
+  | case1 => simp
+  | case2 b0 rest h0 ih =>
+    rw [List.cons_append, utf8Valid_cons]; simp only [h0, ↓reduceIte]
+    exact ih h
+  | case3 b0 h0 h1 b1 r ih =>
+    simp only [Bool.and_eq_true] at h
+    rw [List.cons_append, List.cons_append, utf8Valid_cons]; simp only [h0, h1, ↓reduceIte]
+    simp [h.1, ih h.2]
+  | case4 => simp at h
+  | case5 b0 h0 h1 h2 b1 b2 r ih =>
+    simp only [Bool.and_eq_true] at h
+    rw [List.cons_append, List.cons_append, List.cons_append, utf8Valid_cons]; simp only [h0, h1, h2, ↓reduceIte]
+    simp [h.1.1, h.1.2, ih h.2]
+  | case6 => simp at h
+  | case7 b0 h0 h1 h2 h3 b1 b2 b3 r ih =>
+    simp only [Bool.and_eq_true] at h
+    rw [List.cons_append, List.cons_append, List.cons_append, List.cons_append, utf8Valid_cons]; simp only [h0, h1, h2, h3, ↓reduceIte]
+    simp [h.1.1.1, h.1.1.2, h.1.2, ih h.2]
+  | case8 => simp at h
+  | case9 => simp at h
 /-! ## `Repr` -/
 
 theorem repr_content_aux (hmax : maxInline < 2 ^ inlineLenBits) (s : List UInt8) :
